@@ -1,2 +1,4 @@
 import QuicProofs.Bridge.VarInt
+import QuicProofs.Lemmas.LocalIds
 import QuicProofs.Props.C05VarInt
+import QuicProofs.Props.C13ConnectionIds
